@@ -520,6 +520,256 @@ where
 //@end
 }
 
+// ---- L-stream: a whole byte stream (any length) yields exactly the model's event sequence ----
+
+spec fn model_run<C: CharAccumulator>(m: MP<C>, bytes: Seq<u8>, i: int) -> (MP<C>, Seq<Event>)
+    decreases i
+{
+    if i <= 0 || i > bytes.len() { (m, Seq::empty()) }
+    else {
+        let p = model_run(m, bytes, i - 1);
+        let t = model_step(p.0, bytes[i - 1], osc_cap());
+        (t.0, p.1 + t.1)
+    }
+}
+
+/// the caller's loop (this function is verification-side code, not repository code): feeding a
+/// slice byte by byte through the real `advance` produces the model run of that slice
+fn drive<C: CharAccumulator, P: Perform>(parser: &mut Parser<C>, performer: &mut P, bytes: &[u8])
+    requires old(parser).wf(),
+    ensures
+        final(parser).wf(),
+        final(parser).abs() == model_run(old(parser).abs(), bytes@, bytes@.len() as int).0,
+        final(performer).log() == old(performer).log() + model_run(old(parser).abs(), bytes@, bytes@.len() as int).1,
+{
+    let ghost m0 = parser.abs();
+    let ghost log0 = performer.log();
+    let mut i: usize = 0;
+    proof { assert(log0 + Seq::<Event>::empty() =~= log0); }
+    while i < bytes.len()
+        invariant
+            i <= bytes.len(),
+            parser.wf(),
+            parser.abs() == model_run(m0, bytes@, i as int).0,
+            performer.log() == log0 + model_run(m0, bytes@, i as int).1,
+        decreases bytes.len() - i
+    {
+        let ghost before = model_run(m0, bytes@, i as int);
+        parser.advance(performer, bytes[i]);
+        proof {
+            let t = model_step(before.0, bytes@[i as int], osc_cap());
+            assert((log0 + before.1) + t.1 =~= log0 + (before.1 + t.1));
+        }
+        i += 1;
+    }
+}
+
+// ---- L-cancel: after CAN or SUB the rest of the stream is parsed as by a fresh parser ----
+
+/// which bookkeeping can still influence a future callback, per state: parameters and
+/// intermediates while a control sequence is being collected, the OSC buffer inside an OSC string,
+/// nothing in Ground and in the "ignore"/string states (every way out of them clears first)
+spec fn collecting(s: State) -> bool {
+    s == State::Escape || s == State::EscapeIntermediate || s == State::CsiEntry || s == State::CsiParam
+        || s == State::CsiIntermediate || s == State::DcsEntry || s == State::DcsParam || s == State::DcsIntermediate
+}
+
+spec fn same_future<C>(a: MP<C>, b: MP<C>) -> bool {
+    &&& a.st == b.st
+    &&& a.utf8 == b.utf8
+    &&& (collecting(a.st) ==> a.inter == b.inter && a.ignoring == b.ignoring && a.closed == b.closed && a.open == b.open && a.param == b.param)
+    &&& (a.st == State::OscString ==> a.osc_raw == b.osc_raw && a.osc_bounds == b.osc_bounds)
+}
+
+/// `same_future` is a bisimulation: equal events now, related states afterwards (one lemma per state keeps the case analysis small)
+proof fn lemma_sf_CsiEntry<C: CharAccumulator>(a: MP<C>, b: MP<C>, byte: u8)
+    requires same_future(a, b), a.st == State::CsiEntry,
+    ensures
+        model_step(a, byte, osc_cap()).1 == model_step(b, byte, osc_cap()).1,
+        same_future(model_step(a, byte, osc_cap()).0, model_step(b, byte, osc_cap()).0),
+{
+    reveal(vt);
+    reveal(model_action);
+}
+
+proof fn lemma_sf_CsiIgnore<C: CharAccumulator>(a: MP<C>, b: MP<C>, byte: u8)
+    requires same_future(a, b), a.st == State::CsiIgnore,
+    ensures
+        model_step(a, byte, osc_cap()).1 == model_step(b, byte, osc_cap()).1,
+        same_future(model_step(a, byte, osc_cap()).0, model_step(b, byte, osc_cap()).0),
+{
+    reveal(vt);
+    reveal(model_action);
+}
+
+proof fn lemma_sf_CsiIntermediate<C: CharAccumulator>(a: MP<C>, b: MP<C>, byte: u8)
+    requires same_future(a, b), a.st == State::CsiIntermediate,
+    ensures
+        model_step(a, byte, osc_cap()).1 == model_step(b, byte, osc_cap()).1,
+        same_future(model_step(a, byte, osc_cap()).0, model_step(b, byte, osc_cap()).0),
+{
+    reveal(vt);
+    reveal(model_action);
+}
+
+proof fn lemma_sf_CsiParam<C: CharAccumulator>(a: MP<C>, b: MP<C>, byte: u8)
+    requires same_future(a, b), a.st == State::CsiParam,
+    ensures
+        model_step(a, byte, osc_cap()).1 == model_step(b, byte, osc_cap()).1,
+        same_future(model_step(a, byte, osc_cap()).0, model_step(b, byte, osc_cap()).0),
+{
+    reveal(vt);
+    reveal(model_action);
+}
+
+proof fn lemma_sf_DcsEntry<C: CharAccumulator>(a: MP<C>, b: MP<C>, byte: u8)
+    requires same_future(a, b), a.st == State::DcsEntry,
+    ensures
+        model_step(a, byte, osc_cap()).1 == model_step(b, byte, osc_cap()).1,
+        same_future(model_step(a, byte, osc_cap()).0, model_step(b, byte, osc_cap()).0),
+{
+    reveal(vt);
+    reveal(model_action);
+}
+
+proof fn lemma_sf_DcsIgnore<C: CharAccumulator>(a: MP<C>, b: MP<C>, byte: u8)
+    requires same_future(a, b), a.st == State::DcsIgnore,
+    ensures
+        model_step(a, byte, osc_cap()).1 == model_step(b, byte, osc_cap()).1,
+        same_future(model_step(a, byte, osc_cap()).0, model_step(b, byte, osc_cap()).0),
+{
+    reveal(vt);
+    reveal(model_action);
+}
+
+proof fn lemma_sf_DcsIntermediate<C: CharAccumulator>(a: MP<C>, b: MP<C>, byte: u8)
+    requires same_future(a, b), a.st == State::DcsIntermediate,
+    ensures
+        model_step(a, byte, osc_cap()).1 == model_step(b, byte, osc_cap()).1,
+        same_future(model_step(a, byte, osc_cap()).0, model_step(b, byte, osc_cap()).0),
+{
+    reveal(vt);
+    reveal(model_action);
+}
+
+proof fn lemma_sf_DcsParam<C: CharAccumulator>(a: MP<C>, b: MP<C>, byte: u8)
+    requires same_future(a, b), a.st == State::DcsParam,
+    ensures
+        model_step(a, byte, osc_cap()).1 == model_step(b, byte, osc_cap()).1,
+        same_future(model_step(a, byte, osc_cap()).0, model_step(b, byte, osc_cap()).0),
+{
+    reveal(vt);
+    reveal(model_action);
+}
+
+proof fn lemma_sf_DcsPassthrough<C: CharAccumulator>(a: MP<C>, b: MP<C>, byte: u8)
+    requires same_future(a, b), a.st == State::DcsPassthrough,
+    ensures
+        model_step(a, byte, osc_cap()).1 == model_step(b, byte, osc_cap()).1,
+        same_future(model_step(a, byte, osc_cap()).0, model_step(b, byte, osc_cap()).0),
+{
+    reveal(vt);
+    reveal(model_action);
+}
+
+proof fn lemma_sf_Escape<C: CharAccumulator>(a: MP<C>, b: MP<C>, byte: u8)
+    requires same_future(a, b), a.st == State::Escape,
+    ensures
+        model_step(a, byte, osc_cap()).1 == model_step(b, byte, osc_cap()).1,
+        same_future(model_step(a, byte, osc_cap()).0, model_step(b, byte, osc_cap()).0),
+{
+    reveal(vt);
+    reveal(model_action);
+}
+
+proof fn lemma_sf_EscapeIntermediate<C: CharAccumulator>(a: MP<C>, b: MP<C>, byte: u8)
+    requires same_future(a, b), a.st == State::EscapeIntermediate,
+    ensures
+        model_step(a, byte, osc_cap()).1 == model_step(b, byte, osc_cap()).1,
+        same_future(model_step(a, byte, osc_cap()).0, model_step(b, byte, osc_cap()).0),
+{
+    reveal(vt);
+    reveal(model_action);
+}
+
+proof fn lemma_sf_Ground<C: CharAccumulator>(a: MP<C>, b: MP<C>, byte: u8)
+    requires same_future(a, b), a.st == State::Ground,
+    ensures
+        model_step(a, byte, osc_cap()).1 == model_step(b, byte, osc_cap()).1,
+        same_future(model_step(a, byte, osc_cap()).0, model_step(b, byte, osc_cap()).0),
+{
+    reveal(vt);
+    reveal(model_action);
+}
+
+proof fn lemma_sf_OscString<C: CharAccumulator>(a: MP<C>, b: MP<C>, byte: u8)
+    requires same_future(a, b), a.st == State::OscString,
+    ensures
+        model_step(a, byte, osc_cap()).1 == model_step(b, byte, osc_cap()).1,
+        same_future(model_step(a, byte, osc_cap()).0, model_step(b, byte, osc_cap()).0),
+{
+    reveal(vt);
+    reveal(model_action);
+}
+
+proof fn lemma_sf_SosPmApcString<C: CharAccumulator>(a: MP<C>, b: MP<C>, byte: u8)
+    requires same_future(a, b), a.st == State::SosPmApcString,
+    ensures
+        model_step(a, byte, osc_cap()).1 == model_step(b, byte, osc_cap()).1,
+        same_future(model_step(a, byte, osc_cap()).0, model_step(b, byte, osc_cap()).0),
+{
+    reveal(vt);
+    reveal(model_action);
+}
+
+proof fn lemma_sf_Utf8<C: CharAccumulator>(a: MP<C>, b: MP<C>, byte: u8)
+    requires same_future(a, b), a.st == State::Utf8,
+    ensures
+        model_step(a, byte, osc_cap()).1 == model_step(b, byte, osc_cap()).1,
+        same_future(model_step(a, byte, osc_cap()).0, model_step(b, byte, osc_cap()).0),
+{
+    reveal(vt);
+    reveal(model_action);
+}
+
+proof fn lemma_same_future_step<C: CharAccumulator>(a: MP<C>, b: MP<C>, byte: u8)
+    requires same_future(a, b), a.st != State::Anywhere,
+    ensures
+        model_step(a, byte, osc_cap()).1 == model_step(b, byte, osc_cap()).1,
+        same_future(model_step(a, byte, osc_cap()).0, model_step(b, byte, osc_cap()).0),
+{
+    if a.st == State::CsiEntry { lemma_sf_CsiEntry(a, b, byte); }
+    else if a.st == State::CsiIgnore { lemma_sf_CsiIgnore(a, b, byte); }
+    else if a.st == State::CsiIntermediate { lemma_sf_CsiIntermediate(a, b, byte); }
+    else if a.st == State::CsiParam { lemma_sf_CsiParam(a, b, byte); }
+    else if a.st == State::DcsEntry { lemma_sf_DcsEntry(a, b, byte); }
+    else if a.st == State::DcsIgnore { lemma_sf_DcsIgnore(a, b, byte); }
+    else if a.st == State::DcsIntermediate { lemma_sf_DcsIntermediate(a, b, byte); }
+    else if a.st == State::DcsParam { lemma_sf_DcsParam(a, b, byte); }
+    else if a.st == State::DcsPassthrough { lemma_sf_DcsPassthrough(a, b, byte); }
+    else if a.st == State::Escape { lemma_sf_Escape(a, b, byte); }
+    else if a.st == State::EscapeIntermediate { lemma_sf_EscapeIntermediate(a, b, byte); }
+    else if a.st == State::Ground { lemma_sf_Ground(a, b, byte); }
+    else if a.st == State::OscString { lemma_sf_OscString(a, b, byte); }
+    else if a.st == State::SosPmApcString { lemma_sf_SosPmApcString(a, b, byte); }
+    else if a.st == State::Utf8 { lemma_sf_Utf8(a, b, byte); }
+}
+
+/// CAN (0x18) and SUB (0x1A) abandon whatever is in progress from every Williams state: the
+/// parser is back in Ground and everything that follows is parsed as by a parser whose
+/// bookkeeping is empty
+proof fn lemma_cancel<C: CharAccumulator>(m: MP<C>, byte: u8)
+    requires byte == 0x18 || byte == 0x1a, m.st != State::Utf8, m.st != State::Anywhere,
+    ensures
+        model_step(m, byte, osc_cap()).0.st == State::Ground,
+        same_future(model_step(m, byte, osc_cap()).0, MP {
+            st: State::Ground, inter: Seq::empty(), ignoring: false, closed: Seq::empty(), open: Seq::empty(),
+            param: 0, osc_raw: Seq::empty(), osc_bounds: Seq::empty(), utf8: m.utf8 }),
+{
+    reveal(vt);
+    reveal(model_action);
+}
+
 // ---- C20: the feature configurations differ only by their documented limits (spec level) ----
 
 /// fixed OSC buffer: as long as the payload fits, the capacity is unobservable
